@@ -558,9 +558,6 @@ func vRGenCase(r *rand.Rand, it int) *vRCase {
 			if (cmd.eflag^h.eflag)&protocol.EXPRIED_FLAG_MILLISECOND_TIME != 0 {
 				cmd.eflag, cmd.expried = h.eflag, h.expried
 			}
-			if cmd.eflag&protocol.EXPRIED_FLAG_UNLIMITED_EXPRIED_TIME != 0 && cmd.expried == 0xffff {
-				cmd.expried = 100
-			}
 			if r.Intn(2) == 0 {
 				// keep the unit, change the duration only
 				cmd.eflag = h.eflag
@@ -569,6 +566,9 @@ func vRGenCase(r *rand.Rand, it int) *vRCase {
 				} else {
 					cmd.expried = h.expried
 				}
+			}
+			if cmd.eflag&protocol.EXPRIED_FLAG_UNLIMITED_EXPRIED_TIME != 0 && cmd.expried == 0xffff {
+				cmd.expried = 100
 			}
 			cmd.count, cmd.rcount = h.count, h.rcount
 			if r.Intn(3) == 0 {
@@ -728,7 +728,7 @@ func (e *vREnv) restartPinned(src string, c *vRCase) (*vRSnap, int64, string) {
 // the outage; true deadlines are taken from the database that wrote the journal where it still had the hold. Differences are
 // reported as "C07:replay:?" — the check script replaces "?" by the model's class of the first record of that key that the
 // restart treats differently (reload vs recover), or "other".
-func (e *vREnv) replayCheck(recs []vRRec, sn *vRSnap, now, base int64, line int, origBy map[[3]int]vRHold, replay map[string]interface{}) map[[2]int]bool {
+func (e *vREnv) replayCheck(recs []vRRec, sn *vRSnap, now, base int64, line int, origBy map[[3]int]vRHold, skipKeys map[[2]int]bool, replay map[string]interface{}) map[[2]int]bool {
 	ideal := vRRecover(recs, base)
 	var want []vRHold
 	for _, h := range ideal.list() {
@@ -758,6 +758,9 @@ func (e *vREnv) replayCheck(recs []vRRec, sn *vRSnap, now, base int64, line int,
 	}
 	bad := map[[2]int]bool{}
 	for _, d := range vRCompareHolds("R", want, sn.holds, func(vRHold) string { return "x" }, near, true) {
+		if skipKeys[[2]int{d.id[0], d.id[1]}] {
+			continue // the journal itself does not describe this key (reported on the journal side)
+		}
 		what := strings.Split(d.sig, ":")[1]
 		eflag := 0
 		if o, ok := ideal.holds[d.id]; ok {
@@ -794,7 +797,7 @@ func (e *vREnv) replayCheck(recs []vRRec, sn *vRSnap, now, base int64, line int,
 				keep = true
 			}
 		}
-		if keep && !bad[k] && vals[k] != iv {
+		if keep && !bad[k] && !skipKeys[k] && vals[k] != iv {
 			bad[k] = true
 			rp := map[string]interface{}{"reloadLine": line, "db": k[0], "key": k[1], "effect": "value-mismatch"}
 			for kk, v := range replay {
@@ -964,7 +967,7 @@ func (e *vREnv) runCase(it int, c *vRCase) {
 		}
 	}
 	// ---- C07 (replay side)
-	bad := e.replayCheck(recsA, snA, nowA, base, lineA, origBy, replay)
+	bad := e.replayCheck(recsA, snA, nowA, base, lineA, origBy, badJ, replay)
 
 	// ---- C16
 	if dirB == "" {
@@ -1006,7 +1009,7 @@ func (e *vREnv) runCase(it int, c *vRCase) {
 	lineB := e.rout.n
 	e.rout.emit(fmt.Sprintf("aofreload %d %s", nowB-base, jB), snB.String(base, false))
 	rpB := map[string]interface{}{"history": history, "base": base, "restartAt": nowB - base, "journal": jB, "restored": snB.String(base, false), "afterCompaction": true, "corpus": c.name}
-	_ = e.replayCheck(recsB, snB, nowB, base, lineB, origBy, rpB)
+	_ = e.replayCheck(recsB, snB, nowB, base, lineB, origBy, badJ, rpB)
 	nearB := func(h vRHold) bool {
 		unit, _ := vRUnit(h.eflag)
 		return h.deadline != 0x7fffffffffffffff && h.deadline <= nowB+unit+2
@@ -1097,13 +1100,7 @@ func (e *vREnv) runCase(it int, c *vRCase) {
 			}
 			if held && !badB[k] && idealB.values[k] != v {
 				badB[k] = true
-				vc := "value-record-dropped"
-				for id := range ideal.nrec {
-					if id[0] == k[0] && id[1] == k[1] && dropCause(id) == "live-record-dropped" {
-						vc = "live-record-dropped"
-					}
-				}
-				e.monitor("C16:compaction:"+vc, fmt.Sprintf("(value) db %d key %d: the journal describes value %s before the compaction, %q after", k[0], k[1], v, idealB.values[k]), replay2)
+				e.monitor("C16:compaction:value-record-dropped", fmt.Sprintf("(value) db %d key %d: the journal describes value %s before the compaction, %q after", k[0], k[1], v, idealB.values[k]), replay2)
 			}
 		}
 	}
@@ -1150,6 +1147,17 @@ func (e *vREnv) runCase(it int, c *vRCase) {
 				}
 				what := strings.Split(d.sig, ":")[1]
 				cause := dropCause(d.id)
+				if cause == "no-record-dropped" {
+					// the hold's own records were kept: a dropped record of ANOTHER hold of the key (e.g. the update that raised the
+					// holder's Count) changes the admission of this one
+					for id := range ideal.nrec {
+						if id[0] == d.id[0] && id[1] == d.id[1] && id != d.id {
+							if c2 := dropCause(id); c2 != "no-record-dropped" {
+								cause = c2
+							}
+						}
+					}
+				}
 				if what == "value" {
 					cause = "value-record-dropped"
 				}
@@ -1610,6 +1618,23 @@ func vRJournalCause(recs []vRRec, id [3]int) string {
 	for _, n := range updLevels {
 		if n >= 2 {
 			return "levels-journalled-with-update-flag" // deferred journalling writes one record per level, all carrying the current (update) command
+		}
+	}
+	// a re-lock of a hold that was not journalled yet: AddExpried journals one record per level (the new one included), then the
+	// re-lock branch adds its own UPDATED record: depth + 1 records for depth levels
+	plain, upd := map[int64]int{}, map[int64]int{}
+	for _, r := range recs {
+		if [3]int{r.db, r.key, r.id} == id && r.kind == 'L' && r.flag&protocol.LOCK_FLAG_UPDATE_WHEN_LOCKED == 0 {
+			if r.aofFlag&AOF_FLAG_UPDATED != 0 {
+				upd[r.ct]++
+			} else {
+				plain[r.ct]++
+			}
+		}
+	}
+	for ct, n := range plain {
+		if n >= 2 && upd[ct] >= 1 {
+			return "relock-of-unjournalled-hold-journalled-twice"
 		}
 	}
 	return "other"
